@@ -342,8 +342,8 @@ def run(ctx: Ctx) -> None:
     # end the directive, or the next declaration's tokens become part of the pragma's Value
     # (C09's R9.3, evaluated here under this property's id).
     from . import c09
-    from ..report import SubCtx
-    c09.run(SubCtx(ctx, {"R9.3": ("R14.6", "pragma contents stop at the line end: a discarded token that can contain a newline is tested for one")}))  # type: ignore[arg-type]
+    from ..report import SubCtx, run_shared
+    run_shared(ctx, c09.run, {"R9.3": ("R14.6", "pragma contents stop at the line end: a discarded token that can contain a newline is tested for one")})
 
 # ---------------------------------------------------------------------------
 
